@@ -26,7 +26,7 @@ WRAPS = {'import': ['plain', 'in-rule'], 'load-css': ['plain', 'in-mixin', 'in-i
 
 def gen_case(rng):
     n = rng.choice([2, 3, 3, 4, 4])
-    g = lg.random_graph(rng, n, max_out=2, acyclic=True, p_edge=0.85, variants=('plain', 'dot', 'updown', 'ext', 'underscore'))
+    g = lg.random_graph(rng, n, max_out=2, acyclic=True, p_edge=0.85, variants=('plain', 'dot', 'updown', 'ext', 'underscore', 'rootrel', 'rootrel'))
     for es in g['edges']:
         for e in es:
             e.append(rng.choice(WRAPS[e[0]]))
